@@ -214,7 +214,37 @@ def r3_body_split(ctx):
     )
 
 
+def r4_log_channel(ctx):
+    """Keys are emitted on stdout (init / add-key without -o); diagnostics - which at debug
+    level include the unencrypted private section - must not be routed there."""
+    corpus = ctx.corpus
+    mn = corpus.module('main')
+    cfgl = mn.functions.get('_configure_logging')
+    if cfgl is None:
+        raise AnalysisError('C05.R4: __main__._configure_logging missing')
+    ctx.analysed(cfgl)
+    bad = []
+    n = 0
+    for c in calls_in(cfgl.node):
+        d = dotted(c.func) or ''
+        if d.endswith(('basicConfig', 'StreamHandler', 'FileHandler')):
+            n += 1
+            for a in list(c.args) + [k.value for k in c.keywords]:
+                if 'stdout' in src(a):
+                    bad.append(c)
+    ctx.floor('C05.R4', 'logging configuration calls', n)
+    ctx.check(
+        not bad,
+        'C05.R4',
+        f'{func_label(cfgl)}|diagnostics-not-on-stdout',
+        loc(cfgl, bad[0]) if bad else loc(cfgl, cfgl.node),
+        'log output goes to the default stream (stderr), not to stdout where init / add-key emit the key',
+        'log output is routed to stdout: `init -v ... > key` / `add-key` then writes log records (parsed arguments incl. the password at INFO, the unencrypted private section at DEBUG) into the emitted key',
+    )
+
+
 def run(ctx):
+    r4_log_channel(ctx)
     r1_flows(ctx)
     r2_nonce(ctx)
     r3_body_split(ctx)
